@@ -60,7 +60,7 @@ func c11Containers(tier string) []c11Container {
 		{"🌍", "a", "👋", "é", "x", "🎉", "か"},
 		{"é", "a", "́", "z", "か", "̈", "y"},                    // combining marks are code points of their own
 		{"\ufffd", "a", "\ufffd", "\ufffd", "b", "é", "\ufffd"}, // U+FFFD is an ordinary character of a string
-		{"\\xff", "a", "\\xfe", "b", "\\xc3", "c", "\\x80"}, // bytes that are not valid UTF-8 count as one character (U+FFFD) each
+		{"\\xff", "a", "\\xfe", "b", "\\xc3", "c", "\\x80"},     // bytes that are not valid UTF-8 count as one character (U+FFFD) each
 		{"€", "\\t", "\\\"", " ", "\\\\", "\\n", "'"},
 	}
 	for n := 0; n <= maxLen; n++ {
